@@ -63,9 +63,12 @@ impl HtmlFilterBodyAction {
         let mut pending = Vec::new();
 
         if let Err(err) = std::str::from_utf8(&data) {
-            if err.error_len().is_none() {
-                pending = data.split_off(err.valid_up_to());
+            if err.error_len().is_some() {
+                // Invalid bytes: fail before touching any state, so that held bytes can still be given back
+                return Err(html::HtmlParseError::from(String::from_utf8(data).unwrap_err()).into());
             }
+
+            pending = data.split_off(err.valid_up_to());
         }
 
         let mut tokenizer = html::Tokenizer::new(data);
